@@ -4,7 +4,7 @@ import core
 ID = "C09"
 HARNESS = None
 N = {"quick": 0, "thorough": 0}
-SHARD = 60
+SHARD = 20
 HEADER = "From WTF Require Import Model.Validate Model.Text Model.FsAtomic Check.C09."
 CASE_TYPE = "case09"
 CHECK_FN = "check_cases"
@@ -12,7 +12,7 @@ MISMATCH_IS_VIOLATION = False
 RULE = ("three write paths of the BUILT binary - `wtf save`, `wtf save-pipeline` (notebook) and the history update of `wtf search` - each starting from a populated "
         "file (notebooks of 2 and 40 entries, histories of 1, 60 and 100 = max_size entries). (trace) the system calls on the file's directory are recorded with strace and must be the "
         "temp-file-then-rename program the theorem is about; (fail) the run is repeated with RLIMIT_FSIZE = k so that the kernel writes exactly k bytes and fails the "
-        "rest, for k over a grid of the new content's length (quick) or every k (thorough; every seventh k for the full history); (crash) the process is SIGKILLed on entering its n-th write / fsync / rename "
+        "rest, for k over a grid of the new content's length (quick) or, in the thorough tier, every k for new contents of up to 2 500 bytes and every seventh k for the larger files; (crash) the process is SIGKILLed on entering its n-th write / fsync / rename "
         "call, also combined with a size limit (short write, then death). Afterwards the file must hold the complete previous or the complete new content; `save` must "
         "report success iff the new content is in place; no temporary file may be left by a reported failure. non-trivial: every case injects a fault or checks a trace; "
         "distinct = distinct (path, scenario, fault point)")
@@ -213,8 +213,9 @@ def generate(tier, seed):
             idx += 1
             cases.append(run_case(wtf, base, sc, "trace", idx=idx))
             n = len(new) if new else 0
-            if tier == "thorough" and sc[0] == "history/100":
-                # the full history differs from the 60-entry one only in dropping its oldest entry: every seventh byte count
+            if tier == "thorough" and n > 2500:
+                # the large files (40-entry notebook, 60- and 100-entry histories): every seventh byte count and the ends;
+                # every count is tried on the small ones, where the same code writes the same way
                 ks = sorted(set(range(0, n + 2, 7)) | {0, 1, 2, max(n - 2, 0), max(n - 1, 0), n, n + 1})
             elif tier == "thorough":
                 ks = list(range(0, n + 2))
